@@ -347,6 +347,8 @@ class CallMixin(ExprMixin):
         # exceptional outcomes
         normal_extra = []
         for exc, spec in c.raises.items():
+            if exc == "AnyException":
+                continue         # only taken as the anonymous outcome below, in crash-aware callers
             se = post.clone()
             ok = True
             try:
